@@ -252,15 +252,15 @@ func (eng *Engine) verifyLemma(l *Lemma) (res FuncResult) {
 		res.Callees = append(res.Callees, k)
 	}
 	res.Obls = make([]OblResult, len(obls))
-	parallelDo(len(obls), 4, func(i int) {
+	parallelDo(len(obls), 6, func(i int) {
 		o := obls[i]
 		text := texts[i]
 		name := "lemma." + l.Name + "#" + o.Name
 		to := eng.timeoutS
 		if o.Kind == "cover" {
-			to = 2
+			to = 1
 		}
-		r := solve(eng.workDir, name, text, to, nil)
+		r := solve(eng.workDir, name, text, to, coverOnly(o))
 		or := OblResult{Obligation: o, Status: r.status, Backend: r.backend, TimeS: r.timeS, Output: r.output, File: eng.workDir + "/" + sanitizeFile(name) + ".smt2"}
 		if o.Kind == "cover" {
 			if r.status == "unsat" {
